@@ -1,6 +1,6 @@
 (* C20 — model of the program printer of goawk: every String() method of internal/ast/ast.go
    (Program, Stmts, Action, Function, all Expr and Stmt nodes, parenthesize, printString, formatRegex),
-   Go's strconv.Quote and the "%.6g" / FormatInt rendering of NumExpr, and — for reading the text
+   ast.formatString (strconv.Quote with AWK's eight-digit \u escape) and the "%.6g" / FormatInt rendering of NumExpr, and — for reading the text
    back — lexer.scan, lexer.scanRegex and lexer.parseString (lexer/lexer.go).
 
    The printers produce a list of PIECES: a token (of C04's token type) or one space.  The text Go
@@ -135,8 +135,134 @@ Definition pjoin (f : expr -> list piece) : list expr -> list piece :=
     end.
 
 (* ====================================================================================
+   6. formatString, formatRegex, token spellings, render (placed before Expr.String(): UnaryExpr.String() looks at the operand's text)
+   ==================================================================================== *)
+
+Definition hexdig (n : Z) : Z := if n <? 10 then 48 + n else 87 + n.      (* lowerhex[n] *)
+
+Fixpoint in_ranges (rs : list (Z * Z)) (r : Z) : bool :=
+  match rs with
+  | [] => false
+  | (lo, hi) :: t => if r <? lo then false else if r <=? hi then true else in_ranges t r
+  end.
+
+(* strconv.IsPrint (the table is sorted, so the search can stop early) *)
+Definition is_print (r : Z) : bool := in_ranges go_isprint_ranges r.
+
+Definition valid_rune (r : Z) : bool :=
+  ((0 <=? r) && (r <? 55296)) || ((57343 <? r) && (r <=? 1114111)).
+
+(* n hexadecimal digits of r, most significant first *)
+Fixpoint hexn (n : nat) (r : Z) : bytes :=
+  match n with
+  | O => []
+  | S k => hexn k (r / 16) ++ [hexdig (r mod 16)]
+  end.
+
+(* one rune of ast.formatString (strconv.Quote except for the last case) *)
+Definition escaped_rune (r : Z) : bytes :=
+  if (r =? 34) || (r =? 92) then [92; r]
+  else if is_print r then encode_rune r
+  else if r =? 7 then [92; 97]
+  else if r =? 8 then [92; 98]
+  else if r =? 12 then [92; 102]
+  else if r =? 10 then [92; 110]
+  else if r =? 13 then [92; 114]
+  else if r =? 9 then [92; 116]
+  else if r =? 11 then [92; 118]
+  else if (r <? 32) || (r =? 127) then 92 :: 120 :: hexn 2 r
+  else 92 :: 117 :: hexn 8 r.          (* \u%08x: AWK's \u takes up to eight hex digits *)
+
+(* the loop of ast.formatString *)
+Fixpoint quote_body (fuel : nat) (s : bytes) : bytes :=
+  match fuel with
+  | O => []
+  | S k =>
+    match s with
+    | [] => []
+    | b0 :: _ =>
+      let '(r, w) := if b0 <? 128 then (b0, 1) else decode_rune s in
+      if (w =? 1) && (r =? rune_error)
+      then 92 :: 120 :: hexn 2 b0 ++ quote_body k (zdrop 1 s)
+      else escaped_rune r ++ quote_body k (zdrop w s)
+    end
+  end.
+
+Definition quote (s : bytes) : bytes := 34 :: quote_body (length s) s ++ [34].
+
+(* formatRegex: "/" + strings.ReplaceAll(r, "/", `\/`) + "/" *)
+Fixpoint regex_escape (s : bytes) : bytes :=
+  match s with
+  | [] => []
+  | b :: r => if b =? 47 then 92 :: 47 :: regex_escape r else b :: regex_escape r
+  end.
+Definition format_regex (s : bytes) : bytes := 47 :: regex_escape s ++ [47].
+
+(* ASCII text of a Coq string literal is not used in Model files (extraction): byte lists *)
+Definition bfn_name (f : bfn) : bytes :=
+  match f with
+  | FAtan2 => [97;116;97;110;50] | FClose => [99;108;111;115;101] | FCos => [99;111;115] | FExp => [101;120;112]
+  | FFflush => [102;102;108;117;115;104] | FGsub => [103;115;117;98] | FIndex => [105;110;100;101;120]
+  | FInt => [105;110;116] | FLength => [108;101;110;103;116;104] | FLog => [108;111;103]
+  | FMatch => [109;97;116;99;104] | FRand => [114;97;110;100] | FSin => [115;105;110]
+  | FSplit => [115;112;108;105;116] | FSprintf => [115;112;114;105;110;116;102] | FSqrt => [115;113;114;116]
+  | FSrand => [115;114;97;110;100] | FSub => [115;117;98] | FSubstr => [115;117;98;115;116;114]
+  | FSystem => [115;121;115;116;101;109] | FTolower => [116;111;108;111;119;101;114]
+  | FToupper => [116;111;117;112;112;101;114]
+  end.
+
+(* lexer.Token.String() for the keyword / pseudo tokens, by token number *)
+Definition other_name (k : Z) : bytes :=
+  if k =? 44 then [66;69;71;73;78]                          (* BEGIN *)
+  else if k =? 45 then [98;114;101;97;107]                  (* break *)
+  else if k =? 46 then [99;111;110;116;105;110;117;101]     (* continue *)
+  else if k =? 47 then [100;101;108;101;116;101]            (* delete *)
+  else if k =? 48 then [100;111]                            (* do *)
+  else if k =? 49 then [101;108;115;101]                    (* else *)
+  else if k =? 50 then [69;78;68]                           (* END *)
+  else if k =? 51 then [101;120;105;116]                    (* exit *)
+  else if k =? 52 then [102;111;114]                        (* for *)
+  else if k =? 53 then [102;117;110;99;116;105;111;110]     (* function *)
+  else if k =? 55 then [105;102]                            (* if *)
+  else if k =? 57 then [110;101;120;116]                    (* next *)
+  else if k =? 58 then [110;101;120;116;102;105;108;101]    (* nextfile *)
+  else if k =? 61 then [114;101;116;117;114;110]            (* return *)
+  else if k =? 62 then [119;104;105;108;101]                (* while *)
+  else [60;105;108;108;101;103;97;108;62].                  (* <illegal> *)
+
+Definition tok_bytes (t : tok) : bytes :=
+  match t with
+  | TNewline => [10]
+  | TAdd => [43] | TAddAssign => [43;61] | TAnd => [38;38] | TAppend => [62;62] | TAssign => [61] | TAt => [64]
+  | TColon => [58] | TComma => [44] | TDecr => [45;45] | TDiv => [47] | TDivAssign => [47;61] | TDollar => [36]
+  | TEquals => [61;61] | TGte => [62;61] | TGreater => [62] | TIncr => [43;43] | TLBrace => [123]
+  | TLBracket => [91] | TLess => [60] | TLParen _ => [40] | TLte => [60;61] | TMatch => [126] | TMod => [37]
+  | TModAssign => [37;61] | TMul => [42] | TMulAssign => [42;61] | TNotMatch => [33;126] | TNot => [33]
+  | TNotEquals => [33;61] | TOr => [124;124] | TPipe => [124] | TPow => [94] | TPowAssign => [94;61]
+  | TQuestion => [63] | TRBrace => [125] | TRBracket => [93] | TRParen => [41] | TSemicolon => [59]
+  | TSub => [45] | TSubAssign => [45;61]
+  | TGetline => [103;101;116;108;105;110;101] | TIn => [105;110]
+  | TPrint => [112;114;105;110;116] | TPrintf => [112;114;105;110;116;102]
+  | TFunc f => bfn_name f
+  | TName s => s
+  | TNumber s => s
+  | TString s => quote s
+  | TRegex s => format_regex s
+  | TOther k => other_name k
+  end.
+
+Definition piece_bytes (p : piece) : bytes := match p with PT t => tok_bytes t | PSp => [32] end.
+Definition render (ps : list piece) : bytes := flat_map piece_bytes ps.
+
+
+(* ====================================================================================
    4. Expr.String()
    ==================================================================================== *)
+
+(* UnaryExpr.String(): the operator is + or - and the operand's text begins with the same character *)
+Definition ch1 (bs : bytes) : Z := match bs with b :: _ => b | [] => 0 end.
+Definition sign_clash (op : unop) (first : Z) : bool :=
+  match op with UMinus => first =? 45 | UPlus => first =? 43 | UNot => false end.
 
 Fixpoint pe (e : expr) : list piece :=
   let paren (c : expr) : list piece := if needs_paren c e then lpar :: pe c ++ [rpar] else pe c in
@@ -151,7 +277,10 @@ Fixpoint pe (e : expr) : list piece :=
   | EIndex a idx => PT (TName a) :: PT TLBracket :: pjoin pe idx ++ [PT TRBracket]
   | EIn [x] a => paren x ++ [PSp; PT TIn; PSp; PT (TName a)]
   | EIn idx a => lpar :: pjoin pe idx ++ [rpar; PSp; PT TIn; PSp; PT (TName a)]
-  | EUnary op v => PT (un_tok op) :: paren v
+  | EUnary op v =>
+      (* op + " " + value when op is + or - and strings.HasPrefix(value, op), else op + value *)
+      PT (un_tok op)
+      :: (if sign_clash op (ch1 (render (paren v))) then [PSp] else []) ++ paren v
   | EBinary op l r =>
       paren l ++ (match op with BConcat => [PSp] | _ => PSp :: map PT (bin_tok op) ++ [PSp] end) ++ paren r
   | ECond c t f => paren c ++ [PSp; PT TQuestion; PSp] ++ paren t ++ [PSp; PT TColon; PSp] ++ paren f
@@ -284,133 +413,11 @@ Definition pprogram (p : program) : list piece :=
      ++ map (fun ss => [PT kEND; PSp] ++ braced ss) (p_end p)
      ++ map pfunc (p_funcs p)).
 
-(* ====================================================================================
-   6. strconv.Quote, formatRegex, token spellings, render
-   ==================================================================================== *)
-
-Definition hexdig (n : Z) : Z := if n <? 10 then 48 + n else 87 + n.      (* lowerhex[n] *)
-
-Fixpoint in_ranges (rs : list (Z * Z)) (r : Z) : bool :=
-  match rs with
-  | [] => false
-  | (lo, hi) :: t => if r <? lo then false else if r <=? hi then true else in_ranges t r
-  end.
-
-(* strconv.IsPrint (the table is sorted, so the search can stop early) *)
-Definition is_print (r : Z) : bool := in_ranges go_isprint_ranges r.
-
-Definition valid_rune (r : Z) : bool :=
-  ((0 <=? r) && (r <? 55296)) || ((57343 <? r) && (r <=? 1114111)).
-
-(* n hexadecimal digits of r, most significant first *)
-Fixpoint hexn (n : nat) (r : Z) : bytes :=
-  match n with
-  | O => []
-  | S k => hexn k (r / 16) ++ [hexdig (r mod 16)]
-  end.
-
-(* strconv.appendEscapedRune(buf, r, quote = double quote, false, false) *)
-Definition escaped_rune (r : Z) : bytes :=
-  if (r =? 34) || (r =? 92) then [92; r]
-  else if is_print r then encode_rune r
-  else if r =? 7 then [92; 97]
-  else if r =? 8 then [92; 98]
-  else if r =? 12 then [92; 102]
-  else if r =? 10 then [92; 110]
-  else if r =? 13 then [92; 114]
-  else if r =? 9 then [92; 116]
-  else if r =? 11 then [92; 118]
-  else if (r <? 32) || (r =? 127) then 92 :: 120 :: hexn 2 r
-  else
-    let r := if valid_rune r then r else 65533 in
-    if r <? 65536 then 92 :: 117 :: hexn 4 r else 92 :: 85 :: hexn 8 r.
-
-(* the loop of strconv.appendQuotedWith *)
-Fixpoint quote_body (fuel : nat) (s : bytes) : bytes :=
-  match fuel with
-  | O => []
-  | S k =>
-    match s with
-    | [] => []
-    | b0 :: _ =>
-      let '(r, w) := if b0 <? 128 then (b0, 1) else decode_rune s in
-      if (w =? 1) && (r =? rune_error)
-      then 92 :: 120 :: hexn 2 b0 ++ quote_body k (zdrop 1 s)
-      else escaped_rune r ++ quote_body k (zdrop w s)
-    end
-  end.
-
-Definition quote (s : bytes) : bytes := 34 :: quote_body (length s) s ++ [34].
-
-(* formatRegex: "/" + strings.ReplaceAll(r, "/", `\/`) + "/" *)
-Fixpoint regex_escape (s : bytes) : bytes :=
-  match s with
-  | [] => []
-  | b :: r => if b =? 47 then 92 :: 47 :: regex_escape r else b :: regex_escape r
-  end.
-Definition format_regex (s : bytes) : bytes := 47 :: regex_escape s ++ [47].
-
-(* ASCII text of a Coq string literal is not used in Model files (extraction): byte lists *)
-Definition bfn_name (f : bfn) : bytes :=
-  match f with
-  | FAtan2 => [97;116;97;110;50] | FClose => [99;108;111;115;101] | FCos => [99;111;115] | FExp => [101;120;112]
-  | FFflush => [102;102;108;117;115;104] | FGsub => [103;115;117;98] | FIndex => [105;110;100;101;120]
-  | FInt => [105;110;116] | FLength => [108;101;110;103;116;104] | FLog => [108;111;103]
-  | FMatch => [109;97;116;99;104] | FRand => [114;97;110;100] | FSin => [115;105;110]
-  | FSplit => [115;112;108;105;116] | FSprintf => [115;112;114;105;110;116;102] | FSqrt => [115;113;114;116]
-  | FSrand => [115;114;97;110;100] | FSub => [115;117;98] | FSubstr => [115;117;98;115;116;114]
-  | FSystem => [115;121;115;116;101;109] | FTolower => [116;111;108;111;119;101;114]
-  | FToupper => [116;111;117;112;112;101;114]
-  end.
-
-(* lexer.Token.String() for the keyword / pseudo tokens, by token number *)
-Definition other_name (k : Z) : bytes :=
-  if k =? 44 then [66;69;71;73;78]                          (* BEGIN *)
-  else if k =? 45 then [98;114;101;97;107]                  (* break *)
-  else if k =? 46 then [99;111;110;116;105;110;117;101]     (* continue *)
-  else if k =? 47 then [100;101;108;101;116;101]            (* delete *)
-  else if k =? 48 then [100;111]                            (* do *)
-  else if k =? 49 then [101;108;115;101]                    (* else *)
-  else if k =? 50 then [69;78;68]                           (* END *)
-  else if k =? 51 then [101;120;105;116]                    (* exit *)
-  else if k =? 52 then [102;111;114]                        (* for *)
-  else if k =? 53 then [102;117;110;99;116;105;111;110]     (* function *)
-  else if k =? 55 then [105;102]                            (* if *)
-  else if k =? 57 then [110;101;120;116]                    (* next *)
-  else if k =? 58 then [110;101;120;116;102;105;108;101]    (* nextfile *)
-  else if k =? 61 then [114;101;116;117;114;110]            (* return *)
-  else if k =? 62 then [119;104;105;108;101]                (* while *)
-  else [60;105;108;108;101;103;97;108;62].                  (* <illegal> *)
-
-Definition tok_bytes (t : tok) : bytes :=
-  match t with
-  | TNewline => [10]
-  | TAdd => [43] | TAddAssign => [43;61] | TAnd => [38;38] | TAppend => [62;62] | TAssign => [61] | TAt => [64]
-  | TColon => [58] | TComma => [44] | TDecr => [45;45] | TDiv => [47] | TDivAssign => [47;61] | TDollar => [36]
-  | TEquals => [61;61] | TGte => [62;61] | TGreater => [62] | TIncr => [43;43] | TLBrace => [123]
-  | TLBracket => [91] | TLess => [60] | TLParen _ => [40] | TLte => [60;61] | TMatch => [126] | TMod => [37]
-  | TModAssign => [37;61] | TMul => [42] | TMulAssign => [42;61] | TNotMatch => [33;126] | TNot => [33]
-  | TNotEquals => [33;61] | TOr => [124;124] | TPipe => [124] | TPow => [94] | TPowAssign => [94;61]
-  | TQuestion => [63] | TRBrace => [125] | TRBracket => [93] | TRParen => [41] | TSemicolon => [59]
-  | TSub => [45] | TSubAssign => [45;61]
-  | TGetline => [103;101;116;108;105;110;101] | TIn => [105;110]
-  | TPrint => [112;114;105;110;116] | TPrintf => [112;114;105;110;116;102]
-  | TFunc f => bfn_name f
-  | TName s => s
-  | TNumber s => s
-  | TString s => quote s
-  | TRegex s => format_regex s
-  | TOther k => other_name k
-  end.
-
-Definition piece_bytes (p : piece) : bytes := match p with PT t => tok_bytes t | PSp => [32] end.
-Definition render (ps : list piece) : bytes := flat_map piece_bytes ps.
-
 (* the text of Program.String() *)
 Definition program_string (p : program) : bytes := render (pprogram p).
 
 (* ====================================================================================
-   7. NumExpr.String(): FormatInt(int64(v)) if v == float64(int64(v)) else Sprintf("%.6g", v)
+   7. NumExpr.String(): 1e999 if infinite, FormatInt(int64(v)) if v == float64(int64(v)), else Sprintf("%.6g", v)
    ==================================================================================== *)
 
 Fixpoint dec_digits (fuel : nat) (n : Z) (acc : bytes) : bytes :=
@@ -490,8 +497,13 @@ Definition fmt_g6 (v : fnum) : bytes :=
 
 (* NumExpr.String() *)
 Definition fmt_num (v : fnum) : bytes :=
+  match v with
+  | FInf false => [49; 101; 57; 57; 57]            (* math.IsInf: 1e999 *)
+  | FInf true => [45; 49; 101; 57; 57; 57]         (* -1e999 *)
+  | _ =>
   let i := f2i64 v in
-  if feq v (fnum_of_Z i) then format_int i else fmt_g6 v.
+  if feq v (fnum_of_Z i) then format_int i else fmt_g6 v
+  end.
 
 (* ====================================================================================
    8. reading the text back: lexer.parseString, lexer.scan, lexer.scanRegex
